@@ -24,7 +24,8 @@ RULE = ("case kinds: (a) dist program (values, ranges, zero weights, weights giv
         "call of the history is enumerated completely over the RandState choice points and the exact distribution is "
         "compared with weight/total (uniform inside ranges); (c) distselect / randselect with random weight vectors "
         "including zeros, enumerated completely. non-trivial = at least one zero weight or a range entry, or total weight > 1")
-ASSUMPTIONS = ["dist entries are generated disjoint (an entry overlapping a zero-weight entry is not specified by the property)",
+ASSUMPTIONS = ["a value named by a zero-weight entry is never produced, also when it lies inside a listed range; exact frequencies "
+               "are only judged for dists whose entries do not overlap",
                "exact frequencies only for complete choice enumerations; nothing is concluded from capped ones"]
 CASE_TIMEOUT = 240
 DECIDE = J.VALUE_KINDS | {"spurious-solve-failure", "unsat-returned-normally", "other-exception",
@@ -72,6 +73,11 @@ def expected_dist(prog, st):
         ents.append((vals, w))
     if total == 0:
         return None
+    # frequencies are only specified when the entries do not overlap (a zero-weight hole inside a range leaves
+    # the share of the range unspecified): the caller skips the frequency part then
+    allv = [v for vals, w in ents for v in vals]
+    if len(allv) != len(set(allv)):
+        return "overlap"
     exp = {}
     for vals, w in ents:
         if w == 0 or not vals:
@@ -95,6 +101,9 @@ def m3_pure(spec, cnt):
     exp = expected_dist(spec["prog"], st)
     if exp is None:
         cnt.inc("m3_all_zero_weights")
+        return viol
+    if exp == "overlap":
+        cnt.inc("m3_overlapping_entries_skipped")
         return viol
     o = sess.live["o0"]
     hk = sess.hook
